@@ -249,7 +249,7 @@ struct mdarray;
 template <class ElementType, class Extents, class Layout, class Container>
 mdspan(mdarray<ElementType, Extents, Layout, Container>) -> mdspan<
     typename decltype(declval<mdarray<ElementType, Extents, Layout, Container>>().to_mdspan())::element_type,
-    typename decltype(declval<mdarray<ElementType, Extents, Layout, Container>>().to_mdspan())::extens_type,
+    typename decltype(declval<mdarray<ElementType, Extents, Layout, Container>>().to_mdspan())::extents_type,
     typename decltype(declval<mdarray<ElementType, Extents, Layout, Container>>().to_mdspan())::layout_type,
     typename decltype(declval<mdarray<ElementType, Extents, Layout, Container>>().to_mdspan())::accessor_type>;
 
